@@ -3516,7 +3516,14 @@ fn main() {
         r.samples.truncate(3);
         // the virtual-time verdicts must survive a later section that gets stuck on real threads until the lane
         // watchdog fires (e.g. a change that kills the receiver thread makes every real-thread case wait out its joins)
+        let vt_violations = r.violation_count();
         r.checkpoint();
+        if vt_violations > 0 {
+            // the verdict is settled; the real-thread sections below would only wait out their bounded joins against a
+            // receiver that the same defect has most likely killed (minutes per section)
+            eprintln!("[c08] {} violations in the virtual-time section: the real-thread sections are skipped", vt_violations);
+            std::process::exit(r.finish());
+        }
     }
 
     #[cfg(not(miri))]
